@@ -259,14 +259,6 @@ func unitsAgree(um UnitMetadataMap, m *ref.FmtModel) string {
 	return ""
 }
 
-func histLines(alpha []string, hist []int) []string {
-	out := make([]string, len(hist))
-	for i, h := range hist {
-		out[i] = alpha[h]
-	}
-	return out
-}
-
 func c02ReplayLines(raw json.RawMessage) string {
 	var lines []string
 	if err := json.Unmarshal(raw, &lines); err != nil {
